@@ -666,7 +666,15 @@ func (am *AccountingManager) processPendingRecord(record *PendingAcctRecord) {
 		return
 	}
 
-	ctx, cancel := context.WithTimeout(am.ctx, 5*time.Second)
+	if am.ctx.Err() != nil {
+		// Shutting down: the record stays queued (and on disk) for the next instance
+		return
+	}
+	// An exchange that has begun is finished even if Stop() is called meanwhile
+	// (Stop waits for this goroutine): aborting it after the server has answered
+	// would leave an acknowledged record in the queue, and the next instance
+	// would send it a second time.
+	ctx, cancel := context.WithTimeout(context.WithoutCancel(am.ctx), 5*time.Second)
 	defer cancel()
 
 	verifPoint("retry:before-send")
